@@ -65,6 +65,13 @@ func (g *Gen) clSqrtPrice() (*big.Int, int64) {
 }
 
 func (g *Gen) clLiquidity() *big.Int {
+	if g.Intn(14) == 0 { // huge liquidity: raw 18-decimal value of 140 .. 255 bits (whole part up to 2^195), and exactly around 2^127..2^129 whole
+		if g.Intn(3) == 0 {
+			v := new(big.Int).Add(pow2(127+g.Intn(3)), big.NewInt(int64(g.Intn(3)-1)))
+			return v.Mul(v, p18)
+		}
+		return g.randBits(140 + g.Intn(116))
+	}
 	switch g.Intn(5) {
 	case 0:
 		return new(big.Int).Mul(big.NewInt(int64(1+g.Intn(1000000))), p18)
@@ -133,6 +140,10 @@ func runCLMath(seed int64, n int, dir string) {
 		case k < 26: // next sqrt price functions
 			which := g.Intn(4)
 			amt := g.randBits(1 + g.Intn(160))
+			if g.Intn(10) == 0 {
+				amt = g.randBits(160 + g.Intn(140))
+				o.Count("class.nextsp.huge-amount")
+			}
 			var r *big.Int
 			var line string
 			ok := catch(func() {
@@ -193,6 +204,13 @@ func runCLMath(seed int64, n int, dir string) {
 		case k < 34: // liquidity from amounts
 			a0 := g.randBits(1 + g.Intn(100))
 			a1 := g.randBits(1 + g.Intn(100))
+			if g.Intn(8) == 0 { // up to the 256 bits of sdk.Int, and the 2^63 / 2^64 / 2^128 boundaries
+				a0, a1 = g.randBits(1+g.Intn(255)), g.randBits(1+g.Intn(255))
+				if g.Intn(2) == 0 {
+					a0 = new(big.Int).Add(pow2([]int{63, 64, 128, 255}[g.Intn(4)]), big.NewInt(int64(g.Intn(3)-1)))
+				}
+				o.Count("class.liqamts.huge")
+			}
 			spC, _ := g.clSqrtPrice()
 			var r *big.Int
 			ok := catch(func() {
